@@ -524,7 +524,8 @@ pub fn run(rep: &Report) {
         }
         ops.push(Op::CloneAndContinue);
         ops.push(Op::SetValue(names[n - 1].clone(), val(n - 1 + 6, 0)));
-        ops.push(match variant % 4 {
+        // (switch, clear kind) vary independently: clear() must keep a disabled switch disabled
+        ops.push(match (variant / 2) % 4 {
             0 => Op::Clear,
             1 => Op::ClearVariables,
             2 => Op::ClearFunctions,
